@@ -439,6 +439,11 @@ func roundTrip(m message.Message, o rtOpts) (rtStats, *failure) {
 				map[string]any{"codec": cd.Name, "reported": n, "written": w.total, "writes": w.calls, "message": render(m)}}
 		}
 		stt.Bytes[cd.Name] = len(data)
+		// history: the same codec has just failed on a truncated input (codecs share pooled buffers; a decode must not
+		// depend on what an earlier, failed decode left behind)
+		if len(data) >= 2 {
+			_, _, _ = cd.Enc.DecodeFrom(&countReader{data: data[:len(data)/2], chunk: o.Chunk})
+		}
 		r := &countReader{data: data, chunk: o.Chunk}
 		n2, m2, err := cd.Enc.DecodeFrom(r)
 		if err != nil {
